@@ -499,7 +499,12 @@ func Nested() *descriptorpb.FileDescriptorProto {
 	resource := &descriptorpb.DescriptorProto{Name: proto.String("Resource"),
 		Field: []*descriptorpb.FieldDescriptorProto{f("before", 1, opt, msgT, ".vc.nest.Resource.Before"), f("labels", 2, rep, msgT, ".vc.nest.Resource.LabelsEntry"),
 			f("spec", 3, opt, msgT, ".vc.nest.Resource.Spec"), f("status", 4, opt, msgT, ".vc.nest.Resource.Spec.Status")},
-		NestedType: []*descriptorpb.DescriptorProto{reservedMsg("Before"), labels, reservedMsg("Spec", reservedMsg("Status"))}}
+		NestedType: []*descriptorpb.DescriptorProto{reservedMsg("Before"), labels, reservedMsg("Spec", reservedMsg("Status")),
+			// short names that other messages of this file have too (Outer.Middle.Inner, Other.Leaf, Outer.Middle.MEntry):
+			// anything that identifies a message by its short name confuses them
+			{Name: proto.String("Inner"), Field: []*descriptorpb.FieldDescriptorProto{f("y", 1, opt, str, "")}},
+			{Name: proto.String("Leaf"), Field: []*descriptorpb.FieldDescriptorProto{f("z", 1, opt, i32, "")}},
+			{Name: proto.String("MEntry"), Field: []*descriptorpb.FieldDescriptorProto{f("key", 1, opt, str, ""), f("value", 2, opt, i32, "")}}}}
 	return &descriptorpb.FileDescriptorProto{
 		Name: proto.String("verifcorpus/nest/nest.proto"), Package: proto.String("vc.nest"), Syntax: proto.String("proto3"),
 		Options:     &descriptorpb.FileOptions{GoPackage: proto.String("github.com/cosmos/cosmos-proto/internal/verifcorpus/nest")},
@@ -607,4 +612,74 @@ func Alias() []*Schema {
 	}}}, []string{"verifcorpus/ax/v1/ax.proto"})
 	three.NoEnum = true
 	return []*Schema{ax, ay, one, two, three}
+}
+
+// NoMessages: files of one Go package of which two declare NO top-level message — one only an enum, one only a
+// service — and a third that uses the enum and supplies the service's request/response types. All are requested;
+// every requested proto3 file must be answered (the enum type, the raw descriptor and the init function live there).
+func NoMessages() []*descriptorpb.FileDescriptorProto {
+	opt := descriptorpb.FieldDescriptorProto_LABEL_OPTIONAL.Enum()
+	rep := descriptorpb.FieldDescriptorProto_LABEL_REPEATED.Enum()
+	gopkg := &descriptorpb.FileOptions{GoPackage: proto.String("github.com/cosmos/cosmos-proto/internal/verifcorpus/nomsg")}
+	kinds := &descriptorpb.FileDescriptorProto{
+		Name: proto.String("verifcorpus/nomsg/kinds.proto"), Package: proto.String("vc.nomsg"), Syntax: proto.String("proto3"), Options: gopkg,
+		EnumType: []*descriptorpb.EnumDescriptorProto{{Name: proto.String("Kind"), Value: []*descriptorpb.EnumValueDescriptorProto{
+			{Name: proto.String("KIND_UNSPECIFIED"), Number: proto.Int32(0)}, {Name: proto.String("KIND_A"), Number: proto.Int32(1)}, {Name: proto.String("KIND_B"), Number: proto.Int32(7)}}}},
+	}
+	types := &descriptorpb.FileDescriptorProto{
+		Name: proto.String("verifcorpus/nomsg/types.proto"), Package: proto.String("vc.nomsg"), Syntax: proto.String("proto3"), Options: gopkg,
+		Dependency: []string{"verifcorpus/nomsg/kinds.proto"},
+		MessageType: []*descriptorpb.DescriptorProto{
+			{Name: proto.String("Req"), Field: []*descriptorpb.FieldDescriptorProto{
+				{Name: proto.String("kind"), JsonName: proto.String("kind"), Number: proto.Int32(1), Label: opt, Type: descriptorpb.FieldDescriptorProto_TYPE_ENUM.Enum(), TypeName: proto.String(".vc.nomsg.Kind")},
+				{Name: proto.String("kinds"), JsonName: proto.String("kinds"), Number: proto.Int32(2), Label: rep, Type: descriptorpb.FieldDescriptorProto_TYPE_ENUM.Enum(), TypeName: proto.String(".vc.nomsg.Kind")}}},
+			{Name: proto.String("Resp"), Field: []*descriptorpb.FieldDescriptorProto{
+				{Name: proto.String("ok"), JsonName: proto.String("ok"), Number: proto.Int32(1), Label: opt, Type: descriptorpb.FieldDescriptorProto_TYPE_BOOL.Enum()}}},
+		},
+	}
+	service := &descriptorpb.FileDescriptorProto{
+		Name: proto.String("verifcorpus/nomsg/service.proto"), Package: proto.String("vc.nomsg"), Syntax: proto.String("proto3"), Options: gopkg,
+		Dependency: []string{"verifcorpus/nomsg/types.proto"},
+		Service: []*descriptorpb.ServiceDescriptorProto{{Name: proto.String("Directory"), Method: []*descriptorpb.MethodDescriptorProto{
+			{Name: proto.String("Lookup"), InputType: proto.String(".vc.nomsg.Req"), OutputType: proto.String(".vc.nomsg.Resp")}}}},
+	}
+	return []*descriptorpb.FileDescriptorProto{kinds, types, service}
+}
+
+// Required: generated proto3 messages from which a proto2 message WITH REQUIRED FIELDS is reachable
+// (google.protobuf.UninterpretedOption.NamePart), directly and through a cycle of mutually recursive messages in
+// which the field into the cycle is declared before the field towards the required fields, and through list / map /
+// oneof positions. Only the "initialised?" pass of the reflect engine uses these types.
+func Required() *descriptorpb.FileDescriptorProto {
+	opt := descriptorpb.FieldDescriptorProto_LABEL_OPTIONAL.Enum()
+	rep := descriptorpb.FieldDescriptorProto_LABEL_REPEATED.Enum()
+	msgT := descriptorpb.FieldDescriptorProto_TYPE_MESSAGE.Enum()
+	str := descriptorpb.FieldDescriptorProto_TYPE_STRING.Enum()
+	f := func(name string, num int32, label *descriptorpb.FieldDescriptorProto_Label, typ *descriptorpb.FieldDescriptorProto_Type, tn string) *descriptorpb.FieldDescriptorProto {
+		fp := &descriptorpb.FieldDescriptorProto{Name: proto.String(name), JsonName: proto.String(jsonName(name)), Number: proto.Int32(num), Label: label, Type: typ}
+		if tn != "" {
+			fp.TypeName = proto.String(tn)
+		}
+		return fp
+	}
+	const part = ".google.protobuf.UninterpretedOption.NamePart"
+	tree := &descriptorpb.DescriptorProto{Name: proto.String("Tree"), Field: []*descriptorpb.FieldDescriptorProto{
+		f("name", 1, opt, str, ""), f("branches", 2, rep, msgT, ".vc.req.Branch"), f("part", 3, opt, msgT, part)}}
+	branch := &descriptorpb.DescriptorProto{Name: proto.String("Branch"), Field: []*descriptorpb.FieldDescriptorProto{f("sub", 1, opt, msgT, ".vc.req.Tree")}}
+	entry := &descriptorpb.DescriptorProto{Name: proto.String("ByKeyEntry"), Options: &descriptorpb.MessageOptions{MapEntry: proto.Bool(true)},
+		Field: []*descriptorpb.FieldDescriptorProto{f("key", 1, opt, str, ""), f("value", 2, opt, msgT, part)}}
+	holder := &descriptorpb.DescriptorProto{Name: proto.String("Holder"),
+		Field: []*descriptorpb.FieldDescriptorProto{f("parts", 1, rep, msgT, part), f("by_key", 2, rep, msgT, ".vc.req.Holder.ByKeyEntry"),
+			f("one_part", 3, opt, msgT, part), f("one_text", 4, opt, str, ""), f("tree", 5, opt, msgT, ".vc.req.Tree"), f("plain", 6, opt, msgT, ".vc.req.Plain")},
+		OneofDecl:  []*descriptorpb.OneofDescriptorProto{{Name: proto.String("choice")}},
+		NestedType: []*descriptorpb.DescriptorProto{entry}}
+	holder.Field[2].OneofIndex = proto.Int32(0)
+	holder.Field[3].OneofIndex = proto.Int32(0)
+	plain := &descriptorpb.DescriptorProto{Name: proto.String("Plain"), Field: []*descriptorpb.FieldDescriptorProto{f("s", 1, opt, str, ""), f("again", 2, opt, msgT, ".vc.req.Plain")}}
+	return &descriptorpb.FileDescriptorProto{
+		Name: proto.String("verifcorpus/req/req.proto"), Package: proto.String("vc.req"), Syntax: proto.String("proto3"),
+		Dependency:  []string{"google/protobuf/descriptor.proto"},
+		Options:     &descriptorpb.FileOptions{GoPackage: proto.String("github.com/cosmos/cosmos-proto/internal/verifcorpus/req")},
+		MessageType: []*descriptorpb.DescriptorProto{tree, branch, holder, plain},
+	}
 }
